@@ -46,14 +46,24 @@ func QueryRef() {
 		acc := err == nil
 		o1, _ := RefQuery(sig, Liberties{EmptyDocument: true})
 		verifrt.Known("KF-C05-empty-document", o1 == acc)
-		o2, _ := RefQuery(StringKeywordsAsNames(sig), Liberties{})
-		verifrt.Known("KF-C05-string-keyword", o2 == acc)
+		o2 := false
+		for _, v := range StringKeywordVariants(sig) {
+			if o, _ := RefQuery(v, Liberties{}); o == acc {
+				o2 = true
+			}
+		}
+		verifrt.Known("KF-C05-string-keyword", o2)
 		o3, _ := RefQuery(sig, Liberties{VarInVarDefDirective: true})
 		verifrt.Known("KF-C05-var-in-vardef-directive", o3 == acc)
-		if o1 != acc && o2 != acc && o3 != acc {
+		if o1 != acc && !o2 && o3 != acc {
 			// several of the listed findings in one input
-			o4, _ := RefQuery(StringKeywordsAsNames(sig), Liberties{EmptyDocument: true, VarInVarDefDirective: true})
-			verifrt.Known("KF-C05-combination", o4 == acc)
+			o4 := false
+			for _, v := range append(StringKeywordVariants(sig), sig) {
+				if o, _ := RefQuery(v, Liberties{EmptyDocument: true, VarInVarDefDirective: true}); o == acc {
+					o4 = true
+				}
+			}
+			verifrt.Known("KF-C05-combination", o4)
 		}
 	}
 	verifrt.Assert((err == nil) == ok, "C05.accepts-iff-derivable")
@@ -69,6 +79,16 @@ func QueryRef() {
 		return
 	}
 	got := WalkQuery(doc)
+	if !SameEvents(got, want) {
+		// the string-keyword finding can change the tree without changing the verdict
+		explained := false
+		for _, v := range StringKeywordVariants(sig) {
+			if o, ev := RefQuery(v, Liberties{}); o && SameEvents(got, ev) {
+				explained = true
+			}
+		}
+		verifrt.Known("KF-C05-string-keyword", explained)
+	}
 	verifrt.Assert(SameEvents(got, want), "C05.same-tree")
 }
 
